@@ -2,8 +2,12 @@
 (* Runs the extracted tower functions (TowerMachine over env TOWERPROG) on the cases of env TRACE:
      {"op": "tm.case", "cls", "name", "alias": 0..3, "seed": n}      one evaluation on pseudo-random operands
      {"op": "tm.all2", "cls": "Fq2", "name", "alias", "x": n}        every second operand for the x-th first operand (exhaustive Fq2)
+     {"op": "tm.frob", "cls", "alias": 0|1, "power": k, "seed": n}   frobenius_map with its integer argument; tables by their identities
+     {"op": "tm.dbl", "pt": i, "seed": n}                            miller_doubling_step on the i-th point of the toy twist, Jacobian z from seed
+     {"op": "tm.addstep", "pt": i, "pt2": j, "seed": n}              miller_addition_step on points i (Jacobian) and j (affine), x_i # x_j
+     {"op": "tm.ell", "seed": n}                                     ell (multiplication of f by the line evaluated at P)
    alias: 0 output distinct, 1 output = a, 2 output = b, 3 output = a = b. *)
-EXTENDS TraceBase, TowerMachine
+EXTENDS TraceBase, TowerMachine, SequencesExt
 VARIABLES l, st
 Rnd(seed, i) == (((seed * 7919 + i * 104729 + 12345) % 1000003) * ((seed + 3 * i + 17) % 1009) + i) % QT
 Comp(seed, i) == IF (seed + 5 * i) % 11 = 0 THEN 0 ELSE Rnd(seed, i)               \* zero components now and then
@@ -12,6 +16,17 @@ El6(seed, o) == <<El2(seed, o), El2(seed, o + 2), El2(seed, o + 4)>>
 El12(seed, o) == <<El6(seed, o), El6(seed, o + 6)>>
 El(T, seed, o) == CASE T = "Fq2" -> El2(seed, o) [] T = "Fq6" -> El6(seed, o) [] OTHER -> El12(seed, o)
 Nth2(n) == <<n % QT, (n \div QT) % QT>>                                              \* enumeration of Fq2
+
+\* definitional inverse in the toy Fq12 (a field for QT = 19), through the norm to Fq6 and Fermat there:
+\*   (a0 + a1 w)^(-1) = (a0 - a1 w) / (a0^2 - v a1^2),   n^(-1) = n^(q^6 - 2)
+\* Strict(v, F): F applied to the VALUE of v (TLC hands operator arguments and LET definitions on unevaluated and may evaluate them once per use;
+\* a tuple is built from values, and FoldLeft passes its elements to the operator as values)
+Strict(v, F(_)) == FoldLeft(LAMBDA acc, x : F(x), <<>>, <<v>>)
+InvDef12(a) == Strict(T6Sub(T6Mul(a[1], a[1]), T6Mul(T6Mul(a[2], a[2]), <<T2!EZero, T2!EOne, T2!EZero>>)),
+                      LAMBDA n : Strict(PowT("Fq6", n, QT * QT * QT * QT * QT * QT - 2), LAMBDA ni : <<T6Mul(a[1], ni), T6Neg(T6Mul(a[2], ni))>>))
+CycOf(a) == Strict(InvDef12(a), LAMBDA ai : Strict(T12!EMul(ConjT(a), ai), LAMBDA t : T12!EMul(t, FrobDef("Fq12", t, 2))))
+
+TableMem == [p \in { c[1] : c \in TableCells } |-> (CHOOSE c \in TableCells : c[1] = p)[2]]
 
 RunCase(cls, name, alias, a, b, cs) ==
   LET pg == Prog(cls, name)
@@ -23,22 +38,94 @@ RunCase(cls, name, alias, a, b, cs) ==
       cells == FlatObj(<<"a">>, cls, a) \cup (IF alias = 3 THEN {} ELSE FlatObj(<<"b">>, cls, bv))
                \cup UNION { FlatObj(<<"c" \o ToString(i)>>, "Fq2", cs[i - 1]) : i \in { j \in 2..Len(pg.params) : pg.params[j].type = "Fq2" /\ cls # "Fq2" } }
                \cup (IF alias = 0 THEN { <<p, Undef>> : p \in Cells(<<"out">>, cls) } ELSE {})
-      mem0 == [p \in { c[1] : c \in cells } |-> (CHOOSE c \in cells : c[1] = p)[2]]
-      fin == Exec([mem |-> mem0, faults |-> {}], cls, name, outP, argP, 0)
+      mem0 == [p \in { c[1] : c \in cells } |-> (CHOOSE c \in cells : c[1] = p)[2]] @@ TableMem
+      argI == [i \in 1..Len(pg.params) |-> IF pg.params[i].type = "uint" /\ Len(cs) >= 4 THEN cs[4] ELSE 0]
+      fin == Exec([mem |-> mem0, faults |-> {}, skipped |-> {}], cls, name, outP, argP, argI, 0)
       r == ReadObj(fin.mem, outP, cls)
-  IN [faults |-> fin.faults, r |-> r, ok |-> Holds(cls, name, a, bv, cs, r)]
+  IN [faults |-> fin.faults \cup fin.skipped, gating |-> fin.faults, skipped |-> fin.skipped, r |-> r, ok |-> fin.faults # {} \/ fin.skipped # {} \/ fin.skipped # {} \/ Holds(cls, name, a, bv, cs, r)]
+
+\* ---- the Miller-loop steps on a toy twist  E': y^2 = x^3 + 4 xi  over F_QT[u]/(u^2 + 1)  (the formulas do not use the coefficient) -----------
+B2T == <<4 % QT, 4 % QT>>
+F2All == { <<i, j>> : i \in 0..(QT - 1), j \in 0..(QT - 1) }
+T2Inv(a) == PowT("Fq2", a, QT * QT - 2)
+T2Cube(x) == T2Mul(T2Mul(x, x), x)
+\* (enumerated with plain integer arithmetic: TLC evaluates this once, at start-up)
+Sq2(y) == <<(y[1] * y[1] + (QT - 1) * ((y[2] * y[2]) % QT)) % QT, (2 * y[1] * y[2]) % QT>>
+Mul2(a, b) == <<(a[1] * b[1] + (QT - 1) * ((a[2] * b[2]) % QT)) % QT, (a[1] * b[2] + a[2] * b[1]) % QT>>
+Rhs2(x) == LET c == Mul2(Sq2(x), x) IN <<(c[1] + B2T[1]) % QT, (c[2] + B2T[2]) % QT>>
+TwistPoints == SetToSeq(UNION { LET rhs == Rhs2(x) IN { <<x, y>> : y \in { yy \in F2All : Sq2(yy) = rhs } } : x \in F2All })
+NPts == Len(TwistPoints)
+Z2T == T2!EZero
+NzEl2(seed, o) == LET e == El2(seed, o) IN IF e = Z2T THEN <<1, 0>> ELSE e
+Jac(pt, z) == <<T2Mul(pt[1], T2Mul(z, z)), T2Mul(pt[2], T2Cube(z)), z>>
+Three == <<3 % QT, 0>>   Two2 == <<2 % QT, 0>>
+\* the group law of the twist, affine, by chord and tangent
+DblAff(pt) == LET lam == T2Mul(T2Mul(Three, T2Mul(pt[1], pt[1])), T2Inv(T2Mul(Two2, pt[2])))
+                  x3 == T2Sub(T2Sub(T2Mul(lam, lam), pt[1]), pt[1])
+              IN <<x3, T2Sub(T2Mul(lam, T2Sub(pt[1], x3)), pt[2])>>
+AddAff(p1, p2) == LET lam == T2Mul(T2Sub(p2[2], p1[2]), T2Inv(T2Sub(p2[1], p1[1])))
+                      x3 == T2Sub(T2Sub(T2Mul(lam, lam), p1[1]), p2[1])
+                  IN <<x3, T2Sub(T2Mul(lam, T2Sub(p1[1], x3)), p1[2])>>
+\* a Jacobian triple denotes an affine point
+Denotes(j, pt) == j[3] # Z2T /\ j[1] = T2Mul(pt[1], T2Mul(j[3], j[3])) /\ j[2] = T2Mul(pt[2], T2Cube(j[3]))
+\* (a, b, c) is an Fq2-multiple of the line  L = (coefficient of y_P, of x_P, constant)  -- after multiplication by w^3 the line through
+\* the untwisted points, evaluated at P, is  c + (b x_P) v + (a y_P) v w:  what ell() multiplies into f at positions 0, 1, 4
+Proportional(t, L) == t[1] # Z2T /\ T2Mul(t[1], L[2]) = T2Mul(t[2], L[1]) /\ T2Mul(t[1], L[3]) = T2Mul(t[3], L[1])
+RunPairingFn(name, cells, argP) ==
+  LET mem0 == [p \in { c[1] : c \in cells } |-> (CHOOSE c \in cells : c[1] = p)[2]]
+  IN Exec([mem |-> mem0, faults |-> {}, skipped |-> {}], "pairing", name, <<"nothis">>, argP, [i \in 1..Len(argP) |-> 0], 0)
+UndefObj(pfx, T) == { <<p, Undef>> : p \in Cells(pfx, T) }
+
+MillerChecks(ev) ==
+  IF ev.op = "tm.dbl" THEN
+    IF ~HasProg("pairing", "miller_doubling_step") THEN << <<"not-straight-line", FALSE>> >> ELSE
+    LET pt == TwistPoints[(ev.pt % NPts) + 1]   z == NzEl2(ev.seed, 3)   j == Jac(pt, z)
+        fin == RunPairingFn("miller_doubling_step", FlatObj(<<"r">>, "G2", j) \cup UndefObj(<<"res">>, "MillerTriple"), << <<"res">>, <<"r">> >>)
+        r2 == ReadObj(fin.mem, <<"r">>, "G2")   tri == ReadObj(fin.mem, <<"res">>, "MillerTriple")
+        x == pt[1]  y == pt[2]
+    IN << <<"no-fault", fin.faults = {}>>, <<"diag.not-executable", fin.skipped = {}>>,
+          <<"point", fin.faults # {} \/ fin.skipped # {} \/ IF y = Z2T THEN r2[3] = Z2T ELSE Denotes(r2, DblAff(pt))>>,
+          <<"line", fin.faults # {} \/ fin.skipped # {} \/ y = Z2T \/ Proportional(tri, <<T2Mul(Two2, y), T2Neg(T2Mul(Three, T2Mul(x, x))),
+                                                                        T2Sub(T2Mul(Three, T2Cube(x)), T2Mul(Two2, T2Mul(y, y)))>>)>> >>
+  ELSE IF ev.op = "tm.addstep" THEN
+    IF ~HasProg("pairing", "miller_addition_step") THEN << <<"not-straight-line", FALSE>> >> ELSE
+    LET p1 == TwistPoints[(ev.pt % NPts) + 1]   p2 == TwistPoints[(ev.pt2 % NPts) + 1]   z == NzEl2(ev.seed, 3)   j == Jac(p1, z)
+        fin == RunPairingFn("miller_addition_step", FlatObj(<<"r">>, "G2", j) \cup FlatObj(<<"q">>, "G2Affine", p2) \cup UndefObj(<<"res">>, "MillerTriple"),
+                            << <<"res">>, <<"r">>, <<"q">> >>)
+        r2 == ReadObj(fin.mem, <<"r">>, "G2")   tri == ReadObj(fin.mem, <<"res">>, "MillerTriple")
+        d == T2Sub(p2[1], p1[1])   n == T2Sub(p2[2], p1[2])
+    IN IF d = Z2T THEN << <<"no-fault", fin.faults = {}>>, <<"diag.not-executable", fin.skipped = {}>> >>          \* R = +-Q: outside what the Miller loop can reach for points of order r
+       ELSE << <<"no-fault", fin.faults = {}>>, <<"diag.not-executable", fin.skipped = {}>>,
+               <<"point", fin.faults # {} \/ fin.skipped # {} \/ Denotes(r2, AddAff(p1, p2))>>,
+               <<"line", fin.faults # {} \/ fin.skipped # {} \/ Proportional(tri, <<d, T2Neg(n), T2Sub(T2Mul(n, p2[1]), T2Mul(d, p2[2]))>>)>>,
+               <<"base-unchanged", fin.faults # {} \/ fin.skipped # {} \/ ReadObj(fin.mem, <<"q">>, "G2Affine") = p2>> >>
+  ELSE \* tm.ell
+    IF ~HasProg("pairing", "ell") THEN << <<"not-straight-line", FALSE>> >> ELSE
+    LET f == El12(ev.seed, 0)   co == <<El2(ev.seed, 40), El2(ev.seed, 50), El2(ev.seed, 60)>>   xp == Comp(ev.seed, 71)   yp == Comp(ev.seed, 72)
+        fin == RunPairingFn("ell", FlatObj(<<"f">>, "Fq12", f) \cup FlatObj(<<"co">>, "MillerTriple", co) \cup { <<<<"p", "x">>, xp>>, <<<<"p", "y">>, yp>> },
+                            << <<"f">>, <<"co">>, <<"p">> >>)
+        line == << <<co[3], T2Mul(co[2], <<xp, 0>>), Z2T>>, <<Z2T, T2Mul(co[1], <<yp, 0>>), Z2T>> >>
+    IN << <<"no-fault", fin.faults = {}>>, <<"diag.not-executable", fin.skipped = {}>>, <<"value", fin.faults # {} \/ fin.skipped # {} \/ ReadObj(fin.mem, <<"f">>, "Fq12") = T12!EMul(f, line)>>,
+          <<"coefficients-unchanged", fin.faults # {} \/ fin.skipped # {} \/ ReadObj(fin.mem, <<"co">>, "MillerTriple") = co>> >>
 
 Checks(ev) ==
-  IF ev.op \notin {"tm.case", "tm.all2"} THEN << <<"unknown-op", FALSE>> >>
+  IF ev.op \in {"tm.dbl", "tm.addstep", "tm.ell"} THEN MillerChecks(ev)
+  ELSE IF ev.op = "tm.frob" THEN
+       IF ~HasProg(ev.cls, "frobenius_map") THEN << <<"not-straight-line", FALSE>> >> ELSE
+       LET a == El(ev.cls, ev.seed, 0)
+           res == RunCase(ev.cls, "frobenius_map", ev.alias, a, a, <<Z2T, Z2T, Z2T, ev.power>>)
+       IN << <<"no-fault", res.gating = {}>>, <<"diag.not-executable", res.skipped = {}>>, <<"value", res.faults # {} \/ res.ok>> >>
+  ELSE IF ev.op \notin {"tm.case", "tm.all2"} THEN << <<"unknown-op", FALSE>> >>
   ELSE IF ~HasProg(ev.cls, ev.name) THEN << <<"not-straight-line", FALSE>> >>
   ELSE IF ev.op = "tm.case" THEN
-       LET a == El(ev.cls, ev.seed, 0)  b == El(ev.cls, ev.seed, 40)
+       Strict(LET a0 == El(ev.cls, ev.seed, 0) IN IF ev.name = "square_cyclotomic" THEN CycOf(IF a0 = T12!EZero THEN T12!EOne ELSE a0) ELSE a0, LAMBDA a :
+       LET b == El(ev.cls, ev.seed, 40)
            cs == <<El2(ev.seed, 80), El2(ev.seed, 90), El2(ev.seed, 100)>>
            res == RunCase(ev.cls, ev.name, ev.alias, a, b, cs)
-       IN << <<"no-fault", res.faults = {}>>, <<"value", res.faults # {} \/ ~HasMeaning(ev.cls, ev.name) \/ res.ok>> >>
+       IN << <<"no-fault", res.gating = {}>>, <<"diag.not-executable", res.skipped = {}>>, <<"value", res.faults # {} \/ ~HasMeaning(ev.cls, ev.name) \/ res.ok>> >>)
   ELSE \* every b for the x-th a
        LET a == Nth2(ev.x)
-           bad == { y \in 0..(QT * QT - 1) : LET res == RunCase("Fq2", ev.name, ev.alias, a, Nth2(y), <<>>) IN res.faults # {} \/ ~res.ok }
+           bad == { y \in 0..(QT * QT - 1) : LET res == RunCase("Fq2", ev.name, ev.alias, a, Nth2(y), <<>>) IN res.gating # {} \/ ~res.ok }
        IN << <<"value", bad = {}>> >>
 
 Fails(ev) == FailsOf(Checks(ev))
